@@ -84,3 +84,31 @@ Theorem C01_specification_patterns_are_the_source_patterns :
              end) (s_pats m) (sm_pats sm).
 Proof. exact spec_mode_patterns. Qed.
 Print Assumptions C01_specification_patterns_are_the_source_patterns.
+
+(* FROM THE PARSER'S LEAVES TO THE TOKENS. `occ` are the leaves (literals, dot, classes) the parser
+   produced, in registration order, with their denotations `den` (C08); the configuration `l0` refers
+   to them by occurrence number. The registry assigns class ids (any equality `eqc` that is sound for
+   the denotation; the implementation's is compared on every run), the patterns are relabelled by
+   class ids, compiled by the pipeline model and driven by the iterator model with the registry's
+   match function. For every history and every iterator state the outputs are those of the
+   specification-driven iterator over the ORIGINAL patterns with the leaves' own denotations. *)
+From Scnr Require Import Registry SpecExt FromSource.
+Theorem C01_scanner_from_source_is_specification :
+  forall (L:Type) (eqc:L -> L -> bool) (den:L -> N -> bool),
+  (forall a b, eqc a b = true -> forall c, den a c = den b c) ->
+  forall occ ids reg, assign L eqc [] occ = (ids, reg) ->
+  forall l0, (forall m, In m l0 -> forall p, In p (s_pats m) -> pat_leaves_ok L occ p) ->
+  forall sms0, spec_of_scanner l0 = Some sms0 ->
+  forall cms, build_scanner (map (relabel_mode (id_of ids)) l0) = Some cms ->
+  (forall m, In m (map (relabel_mode (id_of ids)) l0) -> mode_valid m) ->
+  forall ops st,
+  run_ops (impl_scanner (tbl_of L den reg) cms) st ops = run_ops (spec_scanner (den_occ L den occ) sms0) st ops.
+Proof. exact scanner_from_source_is_specification. Qed.
+Print Assumptions C01_scanner_from_source_is_specification.
+
+(* the specification depends on leaf predicate and regular expressions only through the languages *)
+Theorem C01_specification_is_semantic :
+  forall tbl1 tbl2 ms1 ms2, Forall2 (modeeq tbl1 tbl2) ms1 ms2 ->
+  forall ops st, run_ops (spec_scanner tbl1 ms1) st ops = run_ops (spec_scanner tbl2 ms2) st ops.
+Proof. exact spec_scanner_ext. Qed.
+Print Assumptions C01_specification_is_semantic.
